@@ -465,7 +465,7 @@ class Prov:
                 sites.append(site)
                 n = site.node
                 if site.is_term:  # call dest
-                    path = callee_path(n) or "<indirect>"
+                    path = callee_orig(n) or callee_path(n) or "<indirect>"
                     ia = identity_args(n, self.table)
                     if ia is not None and not (self.stop and self.stop(n)):
                         for i in ia:
